@@ -25,7 +25,18 @@ def prefix(rng, ty, order, pool, allow_delete):
     return lines, present
 
 
-def thread_prog(rng, pool, focus, profile, allow_delete, nops):
+# the key a client passes to NewScanner to enumerate everything / the extremes of the key type
+FULL_SCAN_KEYS = {
+    "i64": [str(genseq.I64MIN), str(genseq.I64MAX), "0"],
+    "i32": [str(genseq.I32MIN), str(genseq.I32MAX), "0"],
+    "u64": ["0", str(genseq.U64MAX)],
+    "u32": ["0", str(genseq.U32MAX)],
+    "str": ["_"],
+    "cmp": [str(genseq.I64MIN), str(genseq.I64MAX)],
+}
+
+
+def thread_prog(rng, pool, focus, profile, allow_delete, nops, ty=None):
     ops = []
     def key():
         if rng.random() < 0.7:
@@ -53,7 +64,11 @@ def thread_prog(rng, pool, focus, profile, allow_delete, nops):
         elif kind == "get":
             ops.append("get %s" % key())
         else:
-            ops.append("ns %s" % key())
+            # a quarter of the scans start at an extreme of the key type (the "enumerate everything" idiom)
+            if ty in FULL_SCAN_KEYS and rng.random() < 0.25:
+                ops.append("ns %s" % rng.choice(FULL_SCAN_KEYS[ty]))
+            else:
+                ops.append("ns %s" % key())
             steps = rng.choice([0, 1, 2, 3, 5, 9])
             for _ in range(steps):
                 ops.append("scan")
@@ -97,7 +112,7 @@ def deep_case(rng, profile, types=None):
     nthreads = rng.choice([2, 2, 3])
     for t in range(nthreads):
         nops = rng.choice([1, 2, 2, 3])
-        lines.append("thread %d %s" % (t, " ; ".join(thread_prog(rng, keys, focus, profile, True, nops))))
+        lines.append("thread %d %s" % (t, " ; ".join(thread_prog(rng, keys, focus, profile, True, nops, ty))))
     return lines
 
 
@@ -119,7 +134,7 @@ def case(rng, profile, types=None, orders=(4, 4, 4, 8, 2, 16)):
     lines = ["cbegin %s %d" % (ty, order)] + pre
     for t in range(nthreads):
         nops = rng.choice([1, 1, 2, 2, 3, 4])
-        lines.append("thread %d %s" % (t, " ; ".join(thread_prog(rng, pool, focus, profile, allow_delete, nops))))
+        lines.append("thread %d %s" % (t, " ; ".join(thread_prog(rng, pool, focus, profile, allow_delete, nops, ty))))
     return lines
 
 
